@@ -425,9 +425,19 @@ func CheckMain(args []string) int {
 	sort.SliceStable(total.Violations, func(i, j int) bool { return total.Violations[i].Case < total.Violations[j].Case })
 	knownHits := map[string]int{}
 	var own, side []Violation
+	// A case is tainted from its first violation that matches a known finding on: a history that
+	// already went wrong in a recorded way proves nothing about what follows in the same case.
+	// Violations before that point, and every case without a match, are judged in full.
+	taintedCase := map[int]bool{}
+	tainted := 0
 	for _, v := range total.Violations {
 		if f := known.Match(v); f != nil {
 			knownHits[f.ID]++
+			taintedCase[v.Case] = true
+			continue
+		}
+		if taintedCase[v.Case] {
+			tainted++
 			continue
 		}
 		if v.Prop == c.ID {
@@ -436,6 +446,7 @@ func CheckMain(args []string) int {
 			side = append(side, v)
 		}
 	}
+	total.Counters["violations_after_known_finding_in_same_case_not_judged"] += tainted
 	for _, f := range known.Findings {
 		if knownHits[f.ID] > 0 && f.Property == c.ID {
 			fmt.Printf("KNOWN-FINDING: property=%s %s (%d occurrences this run)\n", f.Property, f.What, knownHits[f.ID])
